@@ -13,6 +13,7 @@ def main():
     S = attach.attach(budget=getattr(mod, "STEP_BUDGET", None))
     attach.S.trace = []
     ctx = worker.Ctx(prop, tier)
+    worker.setup_case(case)
     try:
         mod.run_case(case, ctx)
     except BaseException:
